@@ -903,7 +903,6 @@ func (sc *StorageSmartContract) extendAllocation(
 
 	var (
 		diff = req.getBlobbersSizeDiff(alloc) // size difference
-		size = req.getNewBlobbersSize(alloc)  // blobber size
 
 		// keep original terms to adjust challenge pool value
 		originalTerms = make([]Terms, 0, len(alloc.BlobberAllocs))
@@ -963,7 +962,9 @@ func (sc *StorageSmartContract) extendAllocation(
 			return
 		}
 
-		details.Size = size // new size
+		// every blobber grows by the difference its Allocated grows by (blobbers added
+		// after an uneven extension do not have BlobberAllocs[0]'s size)
+		details.Size += diff // new size
 
 		// update blobber's offer
 		newOffer := details.Offer()
